@@ -244,6 +244,14 @@ impl C03 {
         let g = gen_instance(rng, &cfg);
         let mut inst = g.instance;
         add_threshold_constraints(rng, &mut inst, &g.pool);
+        // one case in six: an instance out of a pipeline of the SDK's own transformations
+        if rng.chance(1, 6) {
+            let (i2, steps) = pipeline_instance(rng, inst);
+            inst = i2;
+            if !steps.is_empty() {
+                mon.facet("instance-out-of-an-SDK-pipeline");
+            }
+        }
         let hidden = add_fixed_and_dependent(rng, &mut inst, regime);
         let give: BTreeSet<u64> = inst.decision_variables.iter().map(|v| v.id).filter(|i| !hidden.contains(i)).collect();
         let all = sorted_state(&gen_state_in_bounds(rng, &inst, Some(&give), regime));
@@ -473,7 +481,7 @@ impl Property for C03 {
         }
     }
     fn rule(&self) -> &'static str {
-        "two of three cases are function level (a hostile function message, bare or wrapped in a Constraint / RemovedConstraint; a state over its ids + extras split at random into a fixed and a remaining part: all/none/random); one of three is instance level (generated valid instance with removed constraints, dependency functions, fixed and unused variables; in-bound state split the same way). Observed: the message after partial_evaluate, the returned id set, evaluate of the remainder, and the same fixing applied in two steps in either order. Non-trivial = non-empty fixed part and a function with a non-zero variable term; distinct = fingerprint of (message, full state, fixed part, wrapper)."
+        "two of three cases are function level (a hostile function message, bare or wrapped in a Constraint / RemovedConstraint; a state over its ids + extras split at random into a fixed and a remaining part: all/none/random); one of three is instance level (generated valid instance with removed constraints, dependency functions, fixed and unused variables, one in six first passed through a random pipeline of SDK transformations; in-bound state split the same way). Observed: the message after partial_evaluate, the returned id set, evaluate of the remainder, and the same fixing applied in two steps in either order. Non-trivial = non-empty fixed part and a function with a non-zero variable term; distinct = fingerprint of (message, full state, fixed part, wrapper)."
     }
     fn assumptions(&self) -> Vec<&'static str> {
         vec![
